@@ -71,6 +71,11 @@ type Stress struct {
 	N3Iter   int  `json:"n3iter"`   // NSEC3 iterations for leaf zones (0 = NSEC)
 	NXQuery  bool `json:"nxQuery"`  // ask a non-existent name (denial path)
 	ManyNS   int  `json:"manyNS"`   // node 1's zone gets this many NS with glue: all but the last never answer
+	// MinFallback: the root answers every name of at most three labels with an empty NOERROR instead of the
+	// referral (a server that mishandles minimised probes), so a minimising resolver first meets the referral to
+	// the one-label TLD at level four, gives minimisation up and starts over from the root -- the restart belongs
+	// to the same request tree and to the same budgets
+	MinFallback bool `json:"minFallback"`
 }
 
 type Case struct {
@@ -247,6 +252,18 @@ func build(c *Case) (*world, error) {
 		}
 	}
 	w.leaf.SetHook(w.leafHook)
+	if c.Stress != nil && c.Stress.MinFallback {
+		n.RootSrv.SetHook(func(ex *authkit.Exchange) {
+			if ex.Resp == nil || ex.Q.Qtype == dns.TypeDNSKEY || ex.Q.Qtype == dns.TypeDS || ex.Q.Name == "." {
+				return
+			}
+			if dns.CountLabel(ex.Q.Name) <= 3 && ex.Truth.Kind == "referral" {
+				ex.Resp.Ns, ex.Resp.Extra, ex.Resp.Answer = nil, nil, nil
+				ex.Resp.Rcode = dns.RcodeSuccess
+				ex.Resp.Authoritative = true
+			}
+		})
+	}
 	return w, nil
 }
 
